@@ -385,6 +385,25 @@ def l7(ctx, rid):
         raise core.AnchorLost('no reset of the worker deadline found')
 
 
+def l9(ctx, rid):
+    """requests to the worker are never dropped: the observer uses the waiting `send`; the lossy try_send / send_timeout /
+    try_reserve variants are not used on the request channel"""
+    prog = ctx.prog
+    n = 0
+    for f in prog.fns.values():
+        for c in f.calls:
+            if not c.path.startswith('tokio::sync::mpsc::Sender'):
+                continue
+            n += 1
+            key = 'lossless-send|%s|%s' % (prog.fns[f.id].root, c.name)
+            if c.name in ('try_send', 'send_timeout', 'try_reserve', 'try_reserve_owned', 'blocking_send'):
+                ctx.bad(rid, key, c.where(), 'requests to the worker are sent with `%s`: while the queue is full they are dropped, so a requested rotation / index dump / create / close never happens' % c.name)
+            else:
+                ctx.ok(rid, key, c.where(), 'waiting send', nontrivial=c.name == 'send')
+    if n < 1:
+        raise core.AnchorLost('no Sender call')
+
+
 def l8(ctx, rid):
     import props.c12 as c12
     c12.s8(ctx, rid, only_sync=False)
@@ -397,5 +416,6 @@ RULES = [
     Rule('C13.L5', 'after every ok write the size/count rotation condition is evaluated and its true edge sends the rotation request; the handler reaches blob replacement', l5, 2),
     Rule('C13.L6', 'no armed wait-for cycle involves the worker (same graph as C08.D1)', l6, 1),
     Rule('C13.L7', 'a deadline armed for deferred work is never wiped by a later reset in the same body', l7, 1),
+    Rule('C13.L9', 'requests to the worker are sent with the waiting send (never dropped when the queue is full)', l9, 1),
     Rule('C13.L8', 'request-pending / in-progress flags are released on every path of their handler (C12.S8 instances)', l8, 1),
 ]
